@@ -628,8 +628,9 @@ class RefExec:
     def resolve_type(self, abstract, raw, fd, path):
         level = self.abstract_level(abstract, fd)
         key = {"field": "_tn_field", "type": "_tn_type", "default": "_typename"}[level]
-        if level != "default" and not isinstance(path[-1], int):
-            # (list items are left out: the type resolver is given the field's info, it cannot tell the items apart)
+        if level != "default" and not isinstance(path[-1], int) and fd is not None and fd.impl == "resolver":
+            # (list items are left out: the type resolver is given the field's info, it cannot tell the items apart;
+            # default-resolved fields too: two aliases read one shared slot, a fault keyed by path would hit only one)
             self.plan.type_resolver_sites.append(path)
             if self.faults.get(path) == "type_raise_tf":
                 # the (harness) type resolver raises a library error: a field error at this position
